@@ -113,6 +113,16 @@ def step (st : St) (args : List String) : St × String × String :=
       let r := CA.exec s.cache rest
       let s' := Sub.feed { s with cache := r.1 } r.2.1
       dup ({ s := s' }, r.2.2)
+  | ["subreset", id, acl, req, target, now] =>
+      -- Reset with a subscription attached in the middle of it; what the subscriber received is
+      -- discarded and the Go side judges its view: here, reset, then subscribe
+      let r := CA.exec s.cache ["reset", target, now]
+      let s1 := Sub.feed { s with cache := r.1 } r.2.1
+      let s2 := Sub.subscribe s1 (decStr id) (parseAcl acl) (parseReq req)
+      let s3 := Sub.updateSub s2 (decStr id) (fun x => { x with out := [], gatedSinceDrain := x.gateShut })
+      dup ({ s := s3 }, (match findSub s3 (decStr id) with
+        | some sub => statusOf sub
+        | none => "?") ++ " mon=ok")
   | ["pregate", id] => dup ({ s := { s with pregated := decStr id :: s.pregated } }, "ok")
   | ["sub", id, acl, req] =>
       let s' := Sub.subscribe s (decStr id) (parseAcl acl) (parseReq req)
